@@ -117,8 +117,16 @@ class _Connector:
                     self.last_error or IOError("connection failed")
                 )
             return
-        stream, future = self.connect(af, addr)
-        self.streams.add(stream)
+        try:
+            stream, future = self.connect(af, addr)
+        except Exception as e:
+            # Creating the socket for this address failed synchronously
+            # (e.g. unsupported address family); treat it like a failed
+            # connection attempt so the remaining addresses are still tried.
+            future = Future()
+            future.set_exception(e)
+        else:
+            self.streams.add(stream)
         future_add_done_callback(
             future, functools.partial(self.on_connect_done, addrs, af, addr)
         )
